@@ -766,7 +766,13 @@ fn gen_preseed(r: &mut Rng, lang: &str, mode: &Mode, world: &World) -> Vec<(Stri
     if !r.chance(1, 3) {
         return v;
     }
-    let contents = ["", "leftover from another tool\n", "// stale\npublic struct CodableVoid: Codable, Equatable {}\n"];
+    let contents = [
+        "",
+        "leftover from another tool\n",
+        "// stale\npublic struct CodableVoid: Codable, Equatable {}\n",
+        // not valid UTF-8 (a file cut in the middle of a multi-byte character, another encoding)
+        "hex:2f 2f 20 63 61 66 c3 0a ff fe 0a",
+    ];
     let ext = lang_ext(lang);
     match mode {
         Mode::File => {
@@ -822,7 +828,12 @@ fn apply_preseed(case: &Case, out: &Path) {
         if let Some(parent) = p.parent() {
             let _ = std::fs::create_dir_all(parent);
         }
-        let _ = std::fs::write(p, content);
+        if let Some(hex) = content.strip_prefix("hex:") {
+            let bytes: Vec<u8> = hex.split_whitespace().filter_map(|h| u8::from_str_radix(h, 16).ok()).collect();
+            let _ = std::fs::write(p, bytes);
+        } else {
+            let _ = std::fs::write(p, content);
+        }
     }
 }
 
@@ -830,6 +841,11 @@ pub fn gen_c08(r: &mut Rng, tier: Tier) -> Case {
     let (lang, mode) = pick_lang_mode(r);
     let mut o = gen_opts_for(&lang, r, tier);
     o.glob_named = false;
+    o.cfg_twins = false;
+    if o.max_files > 300 {
+        o.max_files = 260;
+        o.max_items = 180;
+    }
     let mut world = gen::gen_world(r, &o);
     // sometimes the construct is the only annotated item of the whole workspace (multi-file mode:
     // a workspace without annotated items is a valid, empty run)
@@ -1089,10 +1105,18 @@ fn eval_c08(case: &Case, sc: &mut Scratch, res: &mut EvalResult) {
 pub fn gen_c17(r: &mut Rng, tier: Tier) -> Case {
     let (lang, mode) = pick_lang_mode(r);
     let mut o = gen_opts_for(&lang, r, tier);
+    // (histories multiply the cost of a tree by a dozen invocations: no huge trees here)
+    if o.max_files > 300 {
+        o.max_files = 260;
+        o.max_items = 180;
+    }
     // Codable.swift is in play whenever a `()` is present
     o.unit_fields = true;
+    // (edits would make platform twins differ, which is the known same-name tie)
+    o.cfg_twins = false;
     o.reexports = mode == Mode::Folder && r.chance(1, 4);
-    o.same_names_other_crate = mode == Mode::Folder && r.chance(1, 4);
+    // (moving a type between crates could put two of the same name into one crate: the known tie)
+    o.same_names_other_crate = false;
     let mut lang2 = lang.clone();
     if r.chance(1, 6) {
         // a second language writing into the same location
@@ -1238,7 +1262,8 @@ fn eval_c17(case: &Case, sc: &mut Scratch, res: &mut EvalResult) {
                         let _ = std::fs::remove_file(&p);
                     }
                     "garble" => {
-                        let _ = std::fs::write(&p, b"edited by hand\n");
+                        // re-saved in another encoding: not valid UTF-8 any more
+                        let _ = std::fs::write(&p, b"// edit\xe9 \xe0 la main\n\xff\xfe\n");
                     }
                     "truncate" => {
                         let b = std::fs::read(&p).unwrap_or_default();
